@@ -421,4 +421,65 @@ theorem fatn_descendant (re : Bool) {name : Str} {subs : List Str} (hn : PlainKe
       (fatn_tail_plain subs hs _ (fad_desc_plain hko)))
   simpa [fadMapR, flPath] using this
 
+/-! ## the reference in terms of positions (`getAt`) -/
+
+theorem walkN_eq_getAt : ∀ (ks : List Str) (v : Val), walkN ks v = getAt v (ks.map Seg.key)
+  | [], v => rfl
+  | k :: r, v => by
+    cases v <;> simp only [walkN, List.map_cons, getAt, child, Option.bind]
+    next c kvs =>
+      cases lookup k kvs with
+      | none => rfl
+      | some x => exact walkN_eq_getAt r x
+
+theorem tailN_mem (subs : List Str) (p : Pos) (v : Val) : ∀ (l : List (Pos × Val)),
+    (p, v) ∈ tailN subs l ↔ ∃ b ∈ l, p = b.1 ++ subs.map Seg.key ∧ getAt b.2 (subs.map Seg.key) = some v := by
+  intro l
+  induction l with
+  | nil => simp [tailN_nil]
+  | cons a r ih =>
+    have e : a :: r = [a] ++ r := rfl
+    rw [e, tailN_append, List.mem_append, ih]
+    obtain ⟨pa, va⟩ := a
+    rw [tailN_single, walkN_eq_getAt]
+    constructor
+    · rintro (h | ⟨b, hb, h⟩)
+      · refine ⟨(pa, va), by simp, ?_⟩
+        cases hg : getAt va (subs.map Seg.key) with
+        | none => rw [hg] at h; cases h
+        | some x =>
+          rw [hg] at h
+          simp only [List.mem_singleton, Prod.mk.injEq] at h
+          exact ⟨h.1, by rw [h.2]⟩
+      · exact ⟨b, by simp [hb], h⟩
+    · rintro ⟨b, hb, h1, h2⟩
+      rcases List.mem_append.1 hb with hb | hb
+      · left
+        simp only [List.mem_singleton] at hb
+        subst hb
+        simp only at h1 h2
+        rw [h2, h1]
+        simp
+      · exact Or.inr ⟨b, hb, h1, h2⟩
+
+/-- `tailN subs (descV name t)` lists `(p, v)` iff `p` ends with the keys `name, s1, …, sk` and `v` is the node at `p` -/
+theorem fatn_tail_mem_getAt (name : Str) (subs : List Str) (t : Val) (hk : KeysOkV t) (p : Pos) (v : Val) :
+    (p, v) ∈ tailN subs (descV name t) ↔
+      ∃ q, p = q ++ (name :: subs).map Seg.key ∧ getAt t p = some v := by
+  rw [tailN_mem]
+  constructor
+  · rintro ⟨b, hb, rfl, hg⟩
+    obtain ⟨⟨q, hq⟩, hgb⟩ := ((fad_desc_mem name).1 t hk b.1 b.2).1 hb
+    refine ⟨q, by rw [hq]; simp, ?_⟩
+    rw [getAt_append, hgb]
+    exact hg
+  · rintro ⟨q, rfl, hg⟩
+    have e : q ++ (name :: subs).map Seg.key = (q ++ [Seg.key name]) ++ subs.map Seg.key := by simp
+    rw [e, getAt_append] at hg
+    cases hw : getAt t (q ++ [Seg.key name]) with
+    | none => rw [hw] at hg; cases hg
+    | some w =>
+      rw [hw] at hg
+      exact ⟨(q ++ [Seg.key name], w), ((fad_desc_mem name).1 t hk _ _).2 ⟨⟨q, rfl⟩, hw⟩, e, hg⟩
+
 end N0.FindAll
